@@ -72,6 +72,19 @@ def main():
             res = mutants.catalogue(only=args.only.split(",") if args.only else None, tests=args.tests)
             bad = [r for r in res if not r["as_expected"]]
             print(json.dumps(res, indent=1))
+            out_dir = os.path.join(runner.VERIF, "selftest_results")
+            os.makedirs(out_dir, exist_ok=True)
+            path = os.path.join(out_dir, "sensitivity.json")
+            merged = {}
+            if os.path.exists(path):
+                with open(path, encoding="utf-8") as fh:
+                    merged = {r["mutant"]: r for r in json.load(fh)}
+            for r in res:
+                if r["tests_48_pass"] is None and r["mutant"] in merged:
+                    r["tests_48_pass"] = merged[r["mutant"]].get("tests_48_pass")
+                merged[r["mutant"]] = r
+            with open(path, "w", encoding="utf-8") as fh:
+                json.dump([merged[k] for k in sorted(merged)], fh, indent=1)
             sys.exit(0 if not bad else 3)
         if args.cmd == "patch":
             from . import mutants  # pylint: disable=import-outside-toplevel
